@@ -84,6 +84,37 @@ def write_replay(prop_id, v, seed, theorem=None):
     return path
 
 
+def shrink_program_op(prop, harness_bin, v):
+    """Drops builder calls one at a time while implementation and model keep disagreeing on the
+    property's projection."""
+    toks = v.op.split(" ", 1)[1].split(";")
+    ctor, calls = toks[0], toks[1:]
+
+    def differs(cands):
+        ops = ["bld " + ";".join([ctor] + c) for c in cands]
+        impl, model, _ = C.run_both(harness_bin, ops, "shrink", shards=1)
+        return [(prop.project(o, i) != prop.project(o, m)) for o, i, m in zip(ops, impl, model)], ops, impl, model
+
+    changed = True
+    rounds = 0
+    best = None
+    while changed and rounds < 30 and len(calls) > 1:
+        changed = False
+        rounds += 1
+        cands = [calls[:i] + calls[i + 1:] for i in range(len(calls))]
+        res, ops, impl, model = differs(cands)
+        for c, bad, o, i, m in zip(cands, res, ops, impl, model):
+            if bad:
+                calls = c
+                best = (o, i, m)
+                changed = True
+                break
+    if best is None:
+        return v
+    return Violation(v.kind, best[0], best[1], best[2], v.detail.split(":")[0] + " (shrunk to %d calls): impl=%r model=%r" % (
+        len(calls), prop.project(best[0], best[1]), prop.project(best[0], best[2])), key=v.key)
+
+
 def shrink_bytes_op(prop, harness_bin, v):
     """Delta-debugging over the bytes of a single hex-input op while the projected
     disagreement / relation failure persists."""
@@ -91,6 +122,8 @@ def shrink_bytes_op(prop, harness_bin, v):
     if not op or " " not in op:
         return v
     name, arg = op.split(" ", 1)
+    if name == "bld" and v.kind == "projection":
+        return shrink_program_op(prop, harness_bin, v)
     if name not in ("v1b", "v1s", "v2", "auto", "tlv") or "." in arg or "r" in arg:
         return v
     data = C.unhex(arg)
